@@ -430,6 +430,46 @@ func (c01) Table(rows []Ev, tier string, seed int64, rep *TableReport) {
 		}
 	}
 	cls("equal/single-bit", 1504)
+	// differences that a checksum-like comparison would cancel: the same bit / byte / word changed at two places
+	// (every pair of byte positions for one bit; xor, +d/-d and swapped groups of 1, 2, 4 and 8 bytes)
+	{
+		var a packet.Packet
+		r.Read(a[:])
+		differ := func(c *packet.Packet, what string, x, y int) {
+			if *c == a {
+				return // the change happened to be the identity
+			}
+			if packet.Equal(&a, c) || a.Equals(c) || packet.Equal(c, &a) {
+				bad("Equal", "different-equal-"+what, &a, Ev{"x": x, "y": y})
+			}
+			compared++
+		}
+		for x := 0; x < 188; x++ {
+			for y := x + 1; y < 188; y++ {
+				c := a
+				m := byte(1) << uint((x+y)%8)
+				c[x] ^= m
+				c[y] ^= m
+				differ(&c, "same-bit-twice", x, y)
+				d := a
+				d[x] += 3
+				d[y] -= 3
+				differ(&d, "plus-minus", x, y)
+			}
+		}
+		for _, w := range []int{1, 2, 4, 8} {
+			for x := 0; x+w <= 188; x += w {
+				for y := x + w; y+w <= 188; y += w {
+					c := a
+					for k := 0; k < w; k++ {
+						c[x+k], c[y+k] = a[y+k], a[x+k]
+					}
+					differ(&c, "swapped-groups", x, y)
+				}
+			}
+		}
+		cls("equal/cancelling-differences", 2)
+	}
 	// FromBytes: only exactly 188 bytes construct a packet
 	for ln := 0; ln <= 400; ln++ {
 		buf := make([]byte, ln)
